@@ -10,6 +10,7 @@ use std::sync::{Arc, Mutex};
 
 pub const FLAT: &str = "\u{266D}";
 pub const ROOT: &str = "\u{221A}";
+pub const CUSTOM_ROOT: &str = "my root";
 
 /// Tables shared by all events of an output bundle (written as side files).
 #[derive(Default)]
@@ -279,6 +280,8 @@ pub struct Replica {
     pub store: Arc<Mutex<Store>>,
     /// memo of reconstructed stored orders: (descriptor uuid, revision) -> element tokens
     pub order_memo: HashMap<(String, String), Option<Vec<String>>>,
+    /// custom root identifier of the document last submitted to this replica (None = default root)
+    pub root: Option<String>,
 }
 
 /// Own edit-script applier (trusted base; cross-checked by the C16 function level).
@@ -353,6 +356,18 @@ pub fn status_map(rep: &Replica) -> BTreeMap<String, &'static str> {
 
 /// The Observation.  `full`: also log historical values and stored orders.
 pub fn observe(tables: &mut Tables, rep: &mut Replica, full: bool) -> Value {
+    // which root the document is read from is a function of the replica's state: the custom root
+    // of the generated documents when that object is alive, else the default root
+    let custom = match rep.melda.get_winner(CUSTOM_ROOT) {
+        Ok(w) => parse_rev(&w).map(|p| p.1 != "d").unwrap_or(false),
+        Err(_) => false,
+    };
+    observe_root(tables, rep, full, if custom { Some(CUSTOM_ROOT) } else { None })
+}
+
+/// `root`: identifier of the root object of the document the replica's user works with
+/// (None = the default root).
+pub fn observe_root(tables: &mut Tables, rep: &mut Replica, full: bool, root: Option<&str>) -> Value {
     // --- storage
     let items = rep.store.lock().unwrap().items();
     let mut item_toks = vec![];
@@ -457,7 +472,17 @@ pub fn observe(tables: &mut Tables, rep: &mut Replica, full: bool) -> Value {
         Err(e) => format!("ERR:{}", tok(&e.to_string())),
     };
     // --- document
-    let doc = match rep.melda.read(None) {
+    // reading the default root must return (value or error) whatever root the user works with
+    let rd0 = if root.is_some() {
+        match std::panic::catch_unwind(std::panic::AssertUnwindSafe(|| rep.melda.read(None))) {
+            Ok(Ok(_)) => "ok",
+            Ok(Err(_)) => "err",
+            Err(_) => "panic",
+        }
+    } else {
+        "same"
+    };
+    let doc = match rep.melda.read(root) {
         Ok(d) => docproj_json(&project_doc(&d)),
         Err(e) => {
             json!({"ok": false, "err": tok(&e.to_string()), "sha": "", "objs": {}, "arrays": {}})
@@ -467,7 +492,7 @@ pub fn observe(tables: &mut Tables, rep: &mut Replica, full: bool) -> Value {
         "items": item_toks, "status": status, "heads": heads, "deltas": deltas,
         "objects": objects.iter().map(|o| tok(o)).collect::<Vec<_>>(),
         "trees": trees, "winner": winner, "confl": confl, "inconf": inconf,
-        "staging": staging, "stage": stage, "doc": doc, "full": full, "vals": vals, "orders": orders,
+        "staging": staging, "stage": stage, "doc": doc, "rd0": rd0, "full": full, "vals": vals, "orders": orders,
     })
 }
 
